@@ -17,14 +17,16 @@ use std::sync::Arc;
 type F = Arc<ResidualModel>;
 const NAMES: [&str; 6] = ["picard", "picard-log", "anderson", "anderson-log", "newton", "newton-log"];
 
+/// letters 0..5: a stage with its default iteration limit; 6..11: the same stage cut off after 3 iterations
 fn stage(s: DFTSolver, k: usize, tol: f64) -> DFTSolver {
-    match k {
-        0 => s.picard_iteration(Some(false), None, Some(tol), None),
-        1 => s.picard_iteration(Some(true), None, Some(tol), None),
-        2 => s.anderson_mixing(Some(false), None, Some(tol), None, None),
-        3 => s.anderson_mixing(Some(true), None, Some(tol), None, None),
-        4 => s.newton(Some(false), None, None, Some(tol)),
-        _ => s.newton(Some(true), None, None, Some(tol)),
+    let it = if k >= 6 { Some(3) } else { None };
+    match k % 6 {
+        0 => s.picard_iteration(Some(false), it, Some(tol), None),
+        1 => s.picard_iteration(Some(true), it, Some(tol), None),
+        2 => s.anderson_mixing(Some(false), it, Some(tol), None, None),
+        3 => s.anderson_mixing(Some(true), it, Some(tol), None, None),
+        4 => s.newton(Some(false), it, None, Some(tol)),
+        _ => s.newton(Some(true), it, None, Some(tol)),
     }
 }
 fn chains(depth: usize) -> Vec<Vec<usize>> {
@@ -33,6 +35,13 @@ fn chains(depth: usize) -> Vec<Vec<usize>> {
     for _ in 0..depth {
         out.extend(cur.iter().cloned());
         cur = cur.iter().flat_map(|c| (0..6).map(move |a| [c.clone(), vec![a]].concat())).collect();
+    }
+    // a loose stage that converges followed by a tight stage that is cut off: success of an earlier stage must not be
+    // reported as success of the chain (both tiers)
+    for a in [1, 3, 5] {
+        for b in 6..12 {
+            out.push(vec![a, b]);
+        }
     }
     out
 }
@@ -44,7 +53,7 @@ fn solver_of(ch: &[usize], tol: f64) -> DFTSolver {
     s
 }
 fn chain_name(ch: &[usize]) -> String {
-    ch.iter().map(|&k| NAMES[k]).collect::<Vec<_>>().join(">")
+    ch.iter().map(|&k| if k >= 6 { format!("{}[3it]", NAMES[k % 6]) } else { NAMES[k].to_string() }).collect::<Vec<_>>().join(">")
 }
 
 #[derive(Clone)]
@@ -265,6 +274,6 @@ pub fn run(ctx: &mut Ctx) {
         systems.push(Sys { id: "pcsaft:methane".into(), eos: methane, tr: 0.9, kind: "pore:sphere", depth: 2, n_grid: 256 });
     }
     ctx.run(&systems, |s| format!("{}|{}|Tr={}", s.id, s.kind, s.tr), case);
-    ctx.rule = format!("ALL solver chains of length 1..{} over the 6-letter alphabet {{picard, picard-log, anderson, anderson-log, newton, newton-log}} ({} chains) x final tolerance {{1e-8, 1e-11}} x systems (planar interfaces of PC-SAFT propane at several T_r, water, a gc-PC-SAFT chain; LJ93 slit / cylindrical / spherical pores at sub-saturation) x initial profile {{tanh, pDGT, previous solution}} (single-stage chains) x specification {{ChemicalPotential, Moles, TotalMoles}}; whenever solve reports success: recomputed Euler-Lagrange residual < 10 x tolerance, density non-negative and finite, last logged residual below the tolerance, bulk unchanged for the default specification, surface tension / adsorbed amount / grand potential equal across all successful chains (1e-6), specified particle numbers reproduced (1e-8)", d, chains(d).len());
+    ctx.rule = format!("ALL solver chains of length 1..{} over the 6-letter alphabet {{picard, picard-log, anderson, anderson-log, newton, newton-log}} ({} chains, incl. 18 two-stage chains whose tight last stage is cut off after 3 iterations) x final tolerance {{1e-8, 1e-11}} x systems (planar interfaces of PC-SAFT propane at several T_r, water, a gc-PC-SAFT chain; LJ93 slit / cylindrical / spherical pores at sub-saturation) x initial profile {{tanh, pDGT, previous solution}} (single-stage chains) x specification {{ChemicalPotential, Moles, TotalMoles}}; whenever solve reports success: recomputed Euler-Lagrange residual < 10 x tolerance, density non-negative and finite, last logged residual below the tolerance, bulk unchanged for the default specification, surface tension / adsorbed amount / grand potential equal across all successful chains (1e-6), specified particle numbers reproduced (1e-8)", d, chains(d).len());
     ctx.assume("chains up to the stated depth; systems as listed");
 }
